@@ -355,8 +355,105 @@ pub fn check_filter(rep: &mut Report, rng: &mut Rng, f: &SemFilter, label: &str)
     }
 }
 
+/// The JSON constructors and the integer parts: a number in the text is either reproduced exactly by the accessor or
+/// the text is refused (limit may saturate at u32::MAX, as the filter property allows) - never a wrapped or truncated
+/// value. Numbers: everything within 12 of 2^k (k = 8..66), around 10^19..10^21, and 20-24-digit values with every
+/// pair of leading digits.
+fn check_json_integers(rep: &mut Report) {
+    let mut numbers: Vec<String> = vec!["0".into(), "1".into(), "1681778790".into()];
+    for bits in [8u32, 16, 31, 32, 63, 64, 65, 66] {
+        let base: u128 = 1u128 << bits;
+        for d in 0..=12u128 {
+            numbers.push(format!("{}", base + d));
+            numbers.push(format!("{}", base - d));
+        }
+    }
+    for p10 in [19u32, 20, 21] {
+        let base: u128 = 10u128.pow(p10);
+        for d in 0..=3u128 {
+            numbers.push(format!("{}", base + d));
+            numbers.push(format!("{}", base - d));
+        }
+    }
+    let mut r2 = Rng::new(0x1A7E);
+    for lead in 18u32..=99 {
+        let tail: String = (0..18).map(|_| (b'0' + r2.below(10) as u8) as char).collect();
+        numbers.push(format!("{lead}{tail}"));
+    }
+    for digits in 21usize..=24 {
+        for lead in 1u32..=9 {
+            let tail: String = (0..digits - 1).map(|_| (b'0' + r2.below(10) as u8) as char).collect();
+            numbers.push(format!("{lead}{tail}"));
+        }
+    }
+    let (_, e2) = crate::c01::base_events();
+    let mut rng = Rng::new(7);
+    for num in numbers.iter() {
+        let v: u128 = num.parse().unwrap();
+        rep.eval(fnv(num.as_bytes()), true);
+        rep.count("json_integer_cases");
+        // event: created_at and kind
+        for (member, maxv) in [("created_at", u64::MAX as u128), ("kind", 65535u128)] {
+            let mut r = EvRender::plain();
+            if member == "kind" {
+                r.kind_text = Some(num.clone());
+            } else {
+                r.created_text = Some(num.clone());
+            }
+            let text = render_event(&e2, &r, &mut rng).0;
+            let mut buf = vec![0xCCu8; text.len() * 2 + 1024];
+            let rp = json!({"kind":"json-integer","entry":"Event::from_json","member":member,"number":num});
+            match catch(|| Event::from_json(&text, &mut buf).map(|(_, e)| if member == "kind" { e.kind().as_u16() as u128 } else { e.created_at().as_u64() as u128 }).map_err(|e| format!("{e}"))) {
+                Ok(Ok(got)) => {
+                    if v > maxv || got != v {
+                        rep.finding(&format!("integer-not-faithful:Event::from_json:{member}"), &format!("{member}={num} accepted and read as {got}"), rp);
+                    }
+                }
+                Ok(Err(_)) => {
+                    if v <= maxv {
+                        rep.finding(&format!("refused-representable:Event::from_json:{member}"), &format!("{member}={num} refused"), rp);
+                    }
+                }
+                Err(p) => rep.finding(&format!("panic:Event::from_json:{}@{}", panic_class(&p.message), p.location), &format!("{member}={num}: {}", p.message), rp),
+            }
+        }
+        // filter: since, until, limit, a kinds element
+        for (member, maxv) in [("since", u64::MAX as u128), ("until", u64::MAX as u128), ("limit", u32::MAX as u128), ("kinds", 65535u128)] {
+            let text = if member == "kinds" { format!("{{\"kinds\":[7,{num}]}}") } else { format!("{{\"{member}\":{num}}}") }.into_bytes();
+            let mut buf = vec![0xCCu8; 4096];
+            let rp = json!({"kind":"json-integer","entry":"Filter::from_json","member":member,"number":num});
+            match catch(|| {
+                Filter::from_json(&text, &mut buf)
+                    .map(|(_, _, f)| match member {
+                        "since" => f.since().as_u64() as u128,
+                        "until" => f.until().as_u64() as u128,
+                        "limit" => f.limit() as u128,
+                        _ => f.kinds().nth(1).map(|k| k.as_u16() as u128).unwrap_or(u128::MAX),
+                    })
+                    .map_err(|e| format!("{e}"))
+            }) {
+                Ok(Ok(got)) => {
+                    let saturated = member == "limit" && v > maxv && got == maxv;
+                    if !saturated && (v > maxv || got != v) {
+                        rep.finding(&format!("integer-not-faithful:Filter::from_json:{member}"), &format!("{member}={num} accepted and read as {got}"), rp);
+                    }
+                }
+                Ok(Err(_)) => {
+                    if v <= maxv {
+                        rep.finding(&format!("refused-representable:Filter::from_json:{member}"), &format!("{member}={num} refused"), rp);
+                    }
+                }
+                Err(p) => rep.finding(&format!("panic:Filter::from_json:{}@{}", panic_class(&p.message), p.location), &format!("{member}={num}: {}", p.message), rp),
+            }
+        }
+    }
+}
+
 pub fn run(args: &Args) -> Report {
     let mut rep = Report::new("C19", &args.leg(), &args.tier(), args.seed());
+    if args.get("sample").is_none() {
+        check_json_integers(&mut rep);
+    }
     let mut rng = Rng::new(args.seed() ^ 0xC19);
     let thorough = args.thorough();
     let sample = args.get("sample").map(|_| args.get_u64("sample", 0));
